@@ -254,7 +254,7 @@ Section S2.
     assert (HN : nowait st0 (o1 ++ o2 ++ o3) = Some InSync).
     { rewrite nowait_app, N1, nowait_app, (nowait_nostatus o2 s1 A5 Hs1). exact N3. }
     destruct c2 as [res2 rev2 errs2 pfr2 ph2 st2 crd2 lp2 wp2 conn2 stale2]. cbn in *. subst.
-    destruct (N.eqb lrev 0).
+    destruct (zero_rev lrev).
     - destruct items; [|discriminate]. apply some_inj in H. unfold seq2 in H.
       match type of H with context [loop_top ?a] => destruct (loop_top a) as [c4 o4] eqn:E4 end.
       apply pair_inj in H; destruct H as [<- <-]. use_loop_top E4.
